@@ -156,3 +156,45 @@ class NS:
 
     def __init__(self, **kw):
         self.__dict__.update(kw)
+
+
+def kwfn(*a, **k):
+    return (a, tuple(sorted(k.items())))
+
+
+import functools as _functools  # noqa: E402
+
+# built at import time, outside CrossHair's tracing (which proxies callables handed to partial)
+PARTIAL_EXEMPLAR = _functools.partial(kwfn, 1, 2, a=3)
+
+
+class FakeCtx:
+    """Recording multiprocessing context: Process() hands out FakeProcess objects with
+    fresh pids; the management lock must be held while a process is created."""
+
+    def __init__(self, log, first_pid=50, accepts_env=True, mgmt_lock=None, method="loky"):
+        self.log, self.next_pid, self.accepts_env = log, first_pid, accepts_env
+        self.mgmt_lock = mgmt_lock
+        self.method = method
+        self.created = []
+
+    def get_start_method(self):
+        return self.method
+
+    def Lock(self):
+        self.log.add("ctx-lock")
+        return FakeLock(self.log, "mgmt")
+
+    def BoundedSemaphore(self, n):
+        return FakeLock(self.log, f"exit-sem{len(self.created)}")
+
+    def Process(self, target=None, args=(), **kw):
+        if "env" in kw and not self.accepts_env:
+            raise TypeError("unexpected keyword env")
+        p = FakeProcess(self.log, self.next_pid)
+        self.next_pid += 1
+        p.target, p.args, p.kw = target, args, kw
+        p.lock_held_at_creation = None if self.mgmt_lock is None else self.mgmt_lock.held
+        self.created.append(p)
+        self.log.add("process", p.pid)
+        return p
